@@ -101,22 +101,25 @@ def run_mode(ctx, mode):
     wfbfail = int(m.group(4)) if m else -1
 
     # property-level failures on the implementation (found input): one violation per signature
+    known_sigs = {k["signature"] for k in ctx.known_open}
+    unknown_fail = any("%s-%s" % (pid.lower(), sig) not in known_sigs for sig in summ["propfail"])
     for sig, d in sorted(summ["propfail"].items()):
         ctx.violation("%s-%s" % (pid.lower(), sig),
                       "%s fails on the implementation (%s, %d case(s)); shortest history: [%s]: %s"
                       % (pid, sig, d["count"], d["ops"], d["detail"]),
                       {"ops": d["ops"], "detail": d["detail"], "mode": mode, "how": "./check %s --replay <this file>" % pid})
-    if mism != 0 and not summ["propfail"]:
+    # a model / implementation disagreement is reported on its own: known findings must not hide it
+    # (their zones are written "R ?"/"S ?" or are deterministic in the faithful model)
+    if mism != 0:
         first = re.search(r"MISMATCH[^\n]*\n[^\n]*\n?[^\n]*\n?[^\n]*", dlog)
         ops = re.search(r"ops: (.*)", first.group(0)) if first else None
         ctx.violation("%s-correspondence" % pid.lower(),
-                      "model and implementation disagree on %s case(s) and no property predicate fails on the "
-                      "implementation; the theorems of Properties/%s.v no longer speak about this code: %s"
-                      % (mism, pid, first.group(0)[:900] if first else dlog[-600:]),
+                      "model and implementation disagree on %s case(s)%s; the theorems of Properties/%s.v no "
+                      "longer speak about this code: %s"
+                      % (mism, "" if unknown_fail else " and no property predicate fails on the implementation outside the known findings",
+                         pid, first.group(0)[:900] if first else dlog[-600:]),
                       {"ops": ops.group(1).strip().rstrip(";") if ops else None, "mode": mode, "driver_output": dlog[:4000]},
                       found_input=False)
-    elif mism != 0:
-        ctx.coverage["model_mismatch_note"] = dlog[:1500]
     if wfbfail > 0 and not any(s.startswith("wf-") for s in summ["propfail"]):
         ctx.violation("%s-wfb-extracted" % pid.lower(), "extracted wfb fails on implementation snapshots but the Go "
                       "predicate does not: " + dlog[:600], {"driver_output": dlog[:3000]}, found_input=False)
